@@ -146,6 +146,7 @@ NEAR_MISSES = [
     '--1', '-True', "-'a'", '+1', '1, 2', '-@f', '-%m', "f'x'", '1 if 1 else 2', 'lambda: 1', 'f(1)', '[1 2]',
     '{1: 2 3: 4}', '[1,, 2]', '(,)', '[,]', '{:}', '{1}', '1]', ')', '', '# only a comment', '[1, 2] 3', "'a' b'c'",
     'True False', 'None()', '[1](2)', '1 = 2', '- -1', '-', '[-]', '1e', '0x', '1__0', '07', "'unterminated", '"""open',
+    '[1, 2,)', '(1,]', '[}', "{'a': 1,)", '[(1, 2,], 3]', '(]', '{]', '[1,}', '(1, 2,}', '{)', "{'a': 1,]", '[[],)',
     '{[1]: 2}', '{{}: 1}', '@', '%', '@f(1)', '@f(', '@/f', '@a//f', '%a.', 'not 1', '1 or 2', '~1', '[*a]', '(1 for x in y)',
 ]
 
